@@ -41,7 +41,7 @@ def _empty_agg(item):
         "reach": {}, "states": 0, "transitions": 0, "solver_s": 0.0, "solver_calls": 0,
         "divergences": 0, "infeasible": 0, "errors": [], "samples": [], "funcs": set(),
         "sym_branches": 0, "stuck": 0, "concretised": 0, "step_limits": 0, "labels": {},
-        "unexplored": 0, "exhaustive": True, "max_preempt": 0, "fatal": [],
+        "unexplored": 0, "exhaustive": True, "max_preempt": 0, "fatal": [], "smt": [],
     }
 
 
@@ -65,6 +65,8 @@ def _merge(agg, res):
     if len(agg["samples"]) < 3:
         agg["samples"].extend(res.get("samples", [])[:1])
     agg["funcs"].update(res.get("funcs", []))
+    if len(agg["smt"]) < 6:
+        agg["smt"].extend(res.get("smt", [])[:2])
 
 
 def run_plan(harness, items, nworkers=None, time_budget=60.0, max_paths=None, env=None, progress=None):
